@@ -34,7 +34,10 @@ CHECKS['C01'] = dict(
    design_ref='5.1',
    note='Trusted: TLC, CommunityModules, g++; the TLA+ semantics is a frozen hand transcription of the PINNED interpreter (the '
         'property names the pinned interpreter as the hardware-validated reference). States are sampled (k per opcode), not '
-        'enumerated; the arithmetic kernels are additionally proved exact at scaled width (C03/C04).',
+        'enumerated; the arithmetic kernels are additionally proved exact at scaled width (C03/C04). Generator clause: vectors of the real '
+        'test generator (GenerateTestCasesToFile, plus hundreds of generated states for every opcode whose state is edge-sensitive: r7 '
+        'displacement forms, memory-expanding forms) must satisfy the preconditions the specification states for comparing with hardware '
+        '(memory window, disabled opcodes, status-word restrictions) and execute as the specification says.',
    technique='TLA+ instruction-set specification + TLC trace validation of single-instruction executions of the real interpreter')
 CHECKS['C03'] = dict(
    text='The limb operators behind add/sub/compare/logic, the Z/M/E/N flags and the saturator are compared with integer arithmetic '
